@@ -61,3 +61,15 @@ Theorem C04_whole_run_recorded : forall w o,
   r_skip r = total nskip_ev (r_parent r).
 Proof. exact run_ledger. Qed.
 Print Assumptions C04_whole_run_recorded.
+
+(* observation level: the predicate Obs.c04_ok (nothing escapes, every other test whose stack can be set up still
+   starts, everything is torn down, a summary is printed in every process in which a test started) holds of the
+   model's observation of every run; a sequential case without correspondence difference therefore satisfies it *)
+From ZT Require Import Chk_World Obs ModelCase ObsC03.
+Theorem C04_predicate_holds_of_model : forall w o inj,
+  wf (lw w) -> (forall t, In t (tests w) -> t_layer t < nlayers (lw w)) -> c04_ok (model_case w o inj) = true.
+Proof. exact c04_ok_model. Qed.
+Print Assumptions C04_predicate_holds_of_model.
+Theorem C04_check_sound : forall c, agree c = true -> wf_case c = true -> Nat.ltb 1 (o_procs (Chk_World.o c)) = false -> c04_ok c = true.
+Proof. exact c04_check_sound. Qed.
+Print Assumptions C04_check_sound.
